@@ -327,6 +327,29 @@ def shard(ctx):
     texts = [t for t in corpus.load() if "INKEY$" not in t.upper() and len(t) < 6000 and not bare.search(t)]
     n = ctx.params["n"] // ctx.n
     per = ctx.params["transforms_per_program"]
+    # directed spelling pairs: the same program with a blank added or removed next to a sign, a parenthesis or a keyword
+    # (places the random transforms do not touch); verdict and behaviour must agree; tree not compared where the blank
+    # legitimately changes a token boundary
+    if ctx.k == 0:
+        sub = "SUB Inc (N)\nN = N + 1\nEND SUB\n"
+        pairs = [("X = - 1\nPRINT X; 2 * - 3; 1 - - 1\n", "X = -1\nPRINT X; 2 * -3; 1 - -1\n"),
+                 ("X = 1\nInc(X)\nPRINT X\n" + sub, "X = 1\nInc (X)\nPRINT X\n" + sub),
+                 ("PRINT NOT(1) + 2; NOT(0) = 5\n", "PRINT NOT (1) + 2; NOT (0) = 5\n"),
+                 ("A = 1\nWHILE(A)+1 < 4\nA = A + 1\nWEND\nPRINT A\n", "A = 1\nWHILE (A)+1 < 4\nA = A + 1\nWEND\nPRINT A\n"),
+                 ("FOR I = 1 TO(2)+1 STEP(1)+0\nPRINT I;\nNEXT\n", "FOR I = 1 TO (2)+1 STEP (1)+0\nPRINT I;\nNEXT\n"),
+                 ("A = 2\nSELECT CASE(A)+1\nCASE(1)+2\nPRINT \"three\"\nEND SELECT\n", "A = 2\nSELECT CASE (A)+1\nCASE (1)+2\nPRINT \"three\"\nEND SELECT\n"),
+                 ("PRINT 5 AND(3) + 4; 7 MOD(3) + 1; 8 OR(1)\n", "PRINT 5 AND (3) + 4; 7 MOD (3) + 1; 8 OR (1)\n"),
+                 ("IF(1)+1 = 2 THEN PRINT \"ok\"\n", "IF (1)+1 = 2 THEN PRINT \"ok\"\n")]
+        for a, b in pairs:
+            ra = w.run(a, budget=60000)
+            rb = w.run(b, budget=60000)
+            r.evaluations += 1
+            r.count("directed_spelling_pairs", group="workload")
+            r.nontrivial.add(h64("pair" + a))
+            va, vb = verdict(ra), verdict(rb)
+            ba, bb = behaviour(ra) if va[0] == "accepted" else None, behaviour(rb) if vb[0] == "accepted" else None
+            if va != vb or ba != bb:
+                r.fail("C09:spelling_pair:%s" % ("verdict" if va != vb else "behaviour"), "two spellings differ: %r gives %s %s, %r gives %s %s" % (a, va, ba, b, vb, bb), {"transform": "pair", "src": a, "tsrc": b, "stdin": ""})
     queue = [texts[i] for i in ctx.indices(len(texts))]
     done = 0
     while done < n:
